@@ -926,6 +926,15 @@ func (g *FnGen) nameSites() {
 			}
 		}
 	}
+	// an at-call assertion that names no call site of this function can never be checked: that is
+	// contract drift (the function is undecided), not a silently dropped clause.
+	if g.parent == nil && g.C != nil {
+		for _, cs := range g.C.Calls {
+			if n := counts["call:"+cs.Callee]; n == 0 || cs.K > n {
+				efail("at-call assertion names %s#%d, but %s has %d such call sites (contract drift)", cs.Callee, cs.K, g.name, n)
+			}
+		}
+	}
 }
 
 func (g *FnGen) cover(name, guard string) {
